@@ -404,6 +404,8 @@ impl MqttState {
                 "PubRec Pkid = {:?}, reason: {:?}",
                 pubrec.pkid, pubrec.reason
             );
+            // the broker refused the publish: the flow ends here, no PUBREL / PUBCOMP follows
+            self.inflight -= 1;
             return Ok(None);
         }
 
